@@ -18,7 +18,8 @@ Record variant := {
   d13_acceptor_close : bool;  (* acceptor::close() really closes              *)
   d14_nat_syn_only : bool;    (* NAT rewrites visible_ep[0] on SYN only       *)
   d18_accept_mss : bool;      (* accepted socket takes its MSS from path_mtu  *)
-  d26_writer_wakeup : bool    (* an ACK wakes a writer that WAS blocked and no longer is *)
+  d26_writer_wakeup : bool;   (* an ACK wakes a writer that WAS blocked and no longer is *)
+  d11a_drop_guard : bool      (* packet_dropped ignores a socket without a channel *)
 }.
 
 Definition pinned : variant :=
@@ -26,4 +27,4 @@ Definition pinned : variant :=
      d15_udp_release_whole := false; d16_udp_close_clears := false;
      d7_wakeup_fixed := false; d6_close_clears := false; d12_accept_visible_ep := false;
      d13_acceptor_close := false; d14_nat_syn_only := false; d18_accept_mss := false;
-     d26_writer_wakeup := false |}.
+     d26_writer_wakeup := false; d11a_drop_guard := false |}.
